@@ -181,7 +181,8 @@ def run_rustc(tag, items, entropy, junk, deps, rlib, rend=None):
     for f, t in incs.items():
         open(f, "w", newline="").write(t)
     env = {"PATH": os.environ.get("PATH", "/usr/bin:/bin"), "HOME": os.environ.get("HOME", "/root"),
-           "LD_PRELOAD": SHIM, "VERIF_ENTROPY_SEED": str(entropy)}
+           "LD_PRELOAD": SHIM, "VERIF_ENTROPY_SEED": str(entropy),
+           "RUSTC_ICE": "0"}   # nightly rustc would otherwise drop rustc-ice-*.txt into the cwd when a changed tree makes it ICE
     for k in ("RUSTUP_HOME", "CARGO_HOME", "RUSTUP_TOOLCHAIN"):
         if k in os.environ:
             env[k] = os.environ[k]
